@@ -1,0 +1,26 @@
+//go:build verif
+
+// Contracts for the gowp verifier (/verif). Comment-only; compiled only with -tags verif.
+package rueidisaside
+
+// ---------------------------------------------------------------------------------------------
+// C39 — cache-aside Get (aside.go), sequential part: the lock placeholder never leaves Get as a value; the loader runs
+// only under a lock this client just acquired; its value is stored under that lock id; a failed load releases the lock;
+// a lock whose holder's marker is gone is released before retrying. The Lua scripts and the server are assumed.
+//@ func Client.Get
+//@   modifies *
+//@   ensures [C39 the-lock-placeholder-is-never-returned-as-a-value] result1 == nil ==> !strings.HasPrefix(result0, PlaceholderPrefix)
+//@   assert [C39 the-loader-runs-only-under-a-lock-just-acquired-with-this-clients-id] at fn: returned(IsRedisNil) && second(returned(keepalive)) == nil && arg1 == key
+//@   assert [C39 the-loaded-value-is-stored-under-the-lock-id] at Exec#2: arg0 == setkey && second(returned(fn)) == nil && len(arg3) == 1 && arg3[0] == key && len(arg4) == 3 && arg4[0] == id && arg4[1] == first(returned(fn))
+//@   assert [C39 a-failed-load-releases-this-clients-lock] at Exec#3: arg0 == delkey && err != nil && len(arg3) == 1 && arg3[0] == key && len(arg4) == 1 && arg4[0] == id
+//@   assert [C39 a-dead-holders-lock-is-released-before-retrying] at Exec#4: arg0 == delkey && returned(IsRedisNil) && len(arg3) == 1 && arg3[0] == key && len(arg4) == 1 && arg4[0] == val && strings.HasPrefix(val, PlaceholderPrefix)
+//@   assert [C39 the-lock-is-taken-with-this-clients-id] at Exec#1: arg0 == acquireLock && len(arg3) == 1 && arg3[0] == key && len(arg4) == 2 && arg4[0] == id
+
+//@ func Client.register
+//@   modifies *
+//@   ensures [C39 one-wait-channel-per-key] ch != nil && c.waits[key] == ch
+//@   ensures [C39 an-existing-wait-channel-is-shared] old(c.waits[key]) != nil ==> ch == old(c.waits[key])
+
+//@ func Client.keepalive
+//@   modifies *
+//@   ensures [C39 a-fresh-client-id-is-a-placeholder where-defined] (err == nil && old(c.id) == "" && calls(Do) == 1) ==> (strings.HasPrefix(id, PlaceholderPrefix) || id == c.id)
